@@ -177,10 +177,12 @@ func verifInterleaveHook() {
 		return
 	}
 	verifInterleave.ran = true
-	for i := 0; i < verifInterleave.n; i++ {
-		verifInterleave.resB = verifCallOp(verifInterleave.d, verifInterleave.opB[i], verifSuperuser(), verifInterleave.nameB, verifInterleave.verB[i], verifInterleave.valB[i])
-		verifInterleave.states = append(verifInterleave.states, snapshot(verifInterleave.k.secrets))
-	}
+	concurrently(func() {
+		for i := 0; i < verifInterleave.n; i++ {
+			verifInterleave.resB = verifCallOp(verifInterleave.d, verifInterleave.opB[i], verifSuperuser(), verifInterleave.nameB, verifInterleave.verB[i], verifInterleave.valB[i])
+			verifInterleave.states = append(verifInterleave.states, snapshot(verifInterleave.k.secrets))
+		}
+	})
 }
 
 // verifReadExplainedBy: the outcome of a get / conditional get of name (with V=ver) is what that call returns when run alone in state st.
@@ -222,7 +224,10 @@ func verifC14Interleave(opA int) {
 	verifInterleave.nameB = name // same secret: the interesting case
 	verifInterleave.states = []map[string]*secret{snapshot(k.secrets)}
 
+	raceBegin()
 	resA := verifCallOp(d, opA, verifSuperuser(), name, verA, valA)
+	joinConcurrent()
+	raceEnd() // no database memory is touched by both requests without the database lock
 
 	verifInterleave.on = false
 	assert("state-consistent-after-both", verifKVInv(k))
